@@ -96,6 +96,7 @@ extern Shared* SH;
 // coverage bitmap: persistent across the runs of one worker
 extern uint8_t* g_cov;      // one byte per guard
 extern uint32_t g_cov_n;
+extern uint8_t* g_pairs;    // 64 Ki-bit set of hashed (switched-out function, switched-in function) pairs, persistent per worker
 void coverage_by_function(std::map<std::string, std::pair<int, int>>& out);   // name -> (covered, total) edges
 
 // ---------------------------------------------------------------- log
